@@ -29,6 +29,9 @@ CLAIMS = {
  "C10": ("exploration", "8.C10", "deterministic simulation: stepped walk filling all send queues, every collected frame measured by an independent wire reader",
          "Seeded walks over socket operations, SNL floods, resolve() calls and link steps on two real link controllers with MIUs that are not multiples of 4, aggregation on/off: every frame out of collect() is measured against the MIU the peer put on the wire, every I/UI payload against link/connection MIU, len(pdu)==len(encode(pdu)), and the PDUs dispatched by the receiver must equal the PDUs collected by the sender.",
          "frames containing harness-injected raw access point PDUs are exempt from the size clauses"),
+ "C09": ("exploration", "8.C09", "deterministic simulation: real LLCs + real SNEP/handover service threads + application threads under a seeded scheduler; link ended by 4 causes at a chosen exchange; deadlock detector as oracle",
+         "Seeded exploration over (termination cause: remote DISC / local terminate / disruption / IOError once or persistent) x (break point in link exchanges) x (1-4 application threads per side in send/recv/recvfrom/accept/connect/resolve/poll/close, SNEP and handover clients) x pre-emption policy (synchronisation points, source lines, stalls): when the scheduler has nothing left to run, any thread still blocked is reported with the primitive and nfcpy frame; afterwards every thread issues one more call of each kind on old and new sockets.",
+         "bounded time = 60 simulated seconds; SystemExit/IOError leaving llc.run() on a failing device is the repository's behaviour and not counted; connect() return through the real frontend is covered by the W3 checks"),
 }
 NA = {
  "C11": "pure encode/decode function of its argument: no schedule, clock, fault, peer or history enters the statement; deterministic simulation adds nothing over input generation (DESIGN.md section 9)",
